@@ -307,6 +307,86 @@ static std::string textOf(const vj::Val& st) {
   return t;
 }
 
+// ---- the real bloc command, run as a child process ---------------------------------------------
+#include <sys/stat.h>
+static std::string slurp(const std::string& path) {
+  std::ifstream f(path, std::ios::binary); std::stringstream ss; ss << f.rdbuf(); return ss.str();
+}
+// removes the decorations of the interactive mode (banner, prompts, "Elapsed:" lines, "Error: ..." reports);
+// counts the reports
+static std::string cleanInteractive(const std::string& raw, int& nerr, int& nperr) {
+  nerr = 0; nperr = 0;
+  std::string t = raw;
+  /* banner: first two lines */
+  for (int k = 0; k < 2; ++k) { size_t e = t.find('\n'); if (e == std::string::npos) break; t.erase(0, e + 1); }
+  std::string out;
+  size_t i = 0;
+  while (i < t.size()) {
+    if (t.compare(i, 4, ">>> ") == 0) { i += 4; continue; }
+    if (t.compare(i, 4, "... ") == 0) { i += 4; continue; }
+    if (t.compare(i, 10, "\nElapsed: ") == 0) { size_t e = t.find('\n', i + 1); i = (e == std::string::npos) ? t.size() : e + 1; continue; }
+    if (t.compare(i, 7, "Error: ") == 0 || t.compare(i, 7, "Error (") == 0) {
+      if (t[i + 6] == '(') ++nperr; else ++nerr;
+      /* a run-time report has no newline of its own (the Elapsed line follows); a compile report ends its line */
+      size_t e = t.find('\n', i);
+      if (t[i + 6] == '(') { i = (e == std::string::npos) ? t.size() : e + 1; }
+      else { i = (e == std::string::npos) ? t.size() : e; }
+      continue;
+    }
+    out += t[i++];
+  }
+  return out;
+}
+
+static std::string runCli(const vj::Val& st) {
+  const char* wd = getenv("VDRIVE_WORK");
+  const char* bloc = getenv("VDRIVE_BLOC");
+  std::string dir = std::string(wd ? wd : "/tmp") + "/cli." + std::to_string((long)getpid());
+  mkdir(dir.c_str(), 0755);
+  std::string mode = st.str("mode", "file");
+  std::string text = st.str("text");
+  std::string prog = dir + "/prog.bloc", so = dir + "/stdout", se = dir + "/stderr", of = dir + "/out.txt", si = dir + "/stdin";
+  { std::ofstream f(prog, std::ios::binary); f << text; }
+  { std::ofstream f(si, std::ios::binary); if (mode == "stdin" || mode == "inter") f << text; }
+  unlink(of.c_str());
+  std::vector<std::string> argv;
+  argv.push_back(bloc ? bloc : "bloc");
+  if (mode == "out") argv.push_back("--out=" + of);
+  if (mode == "expr") { argv.push_back("-e"); argv.push_back(text); }
+  else if (mode == "inter") argv.push_back("-i");
+  else if (mode == "stdin") argv.push_back("-");
+  else argv.push_back(prog);
+  if (const vj::Val* a = st.get("args")) for (auto& x : a->a) argv.push_back(x->s);
+  pid_t pid = fork();
+  if (pid == 0) {
+    int fi = open(si.c_str(), O_RDONLY); int fo = open(so.c_str(), O_WRONLY | O_CREAT | O_TRUNC, 0644); int fe = open(se.c_str(), O_WRONLY | O_CREAT | O_TRUNC, 0644);
+    dup2(fi, 0); dup2(fo, 1); dup2(fe, 2);
+    std::vector<char*> av; for (auto& a : argv) av.push_back(const_cast<char*>(a.c_str())); av.push_back(nullptr);
+    alarm(20);
+    execv(av[0], av.data());
+    _exit(127);
+  }
+  int status = 0; waitpid(pid, &status, 0);
+  std::string out = slurp(so), err = slurp(se), file = slurp(of);
+  struct stat sb; bool hasfile = stat(of.c_str(), &sb) == 0;
+  std::string o = "\"status\":" + std::to_string(WIFEXITED(status) ? WEXITSTATUS(status) : -1) +
+                  ",\"sig\":" + std::to_string(WIFSIGNALED(status) ? WTERMSIG(status) : 0);
+  /* sanitizer reports of the child count as a crash class of their own */
+  bool san = err.find("Sanitizer") != std::string::npos || err.find("runtime error:") != std::string::npos;
+  o += std::string(",\"san\":") + (san ? "true" : "false");
+  if (mode == "inter") {
+    int nerr = 0, nperr = 0;
+    o += ",\"out\":" + vj::q(cleanInteractive(out, nerr, nperr)) + ",\"nerr\":" + std::to_string(nerr) + ",\"nperr\":" + std::to_string(nperr);
+  } else o += ",\"out\":" + vj::q(out);
+  /* stderr shape: empty / has "Error (line:col)" / other */
+  bool pos = false;
+  { size_t p0 = err.find("Error ("); if (p0 != std::string::npos) { size_t c = err.find(':', p0), e = err.find(')', p0); pos = c != std::string::npos && e != std::string::npos && c < e; } }
+  o += std::string(",\"err_empty\":") + (err.empty() ? "true" : "false") + ",\"err_pos\":" + (pos ? "true" : "false") + ",\"err\":" + vj::q(err.substr(0, 200));
+  o += std::string(",\"hasfile\":") + (hasfile ? "true" : "false") + ",\"file\":" + vj::q(file);
+  unlink(prog.c_str()); unlink(so.c_str()); unlink(se.c_str()); unlink(of.c_str()); unlink(si.c_str()); rmdir(dir.c_str());
+  return o;
+}
+
 // environment-specific paths in generated texts: @MOD:name@ -> path of the module library, @INC@ -> an include file
 static std::string subst(std::string t) {
   const char* mods = getenv("BLOC_MODULES");
@@ -462,6 +542,9 @@ static std::string doStep(const vj::Val& st) {
            ",\"unp\":" + vj::q(unp) + ",\"rv\":" + retJson(*c.ctx);
       c.ctx->returnCondition(false);
       o += "," + stateJson(*c.ctx);
+    }
+    else if (op == "cli") {
+      o += ",\"oc\":\"ok\"," + runCli(st);
     }
     else if (op == "unban") {
       PluginManager::instance().unbanPlugin(st.str("m"));
